@@ -206,3 +206,13 @@ CASES += [
     {"name": "self-addition taken out before the copying loop", "kind": "twin", "edits": [
         (C, "            for p in list(other.params):\n                self.params.append(p)\n", "            if other is self:\n                self.params.extend(list(self.params))\n            else:\n                for p in other.params:\n                    self.params.append(p)\n", 1)]},
 ]
+
+_SD9 = "quantarhei/qm/corfunctions/spectraldensities.py"
+CASES += [
+    {"name": "requested temperature offered as a default to the component (seeded change of round 8)", "kind": "mutant", "rule": "C09-M", "edits": [
+        (_SD9, "            if temperature is not None:\n                prms[\"T\"] = temperature\n", "            if temperature is not None:\n                prms.setdefault(\"T\", temperature)\n", 1)]},
+    {"name": "requested temperature used where the component has none", "kind": "mutant", "rule": "C09-M", "edits": [
+        (_SD9, "            if temperature is not None:\n                prms[\"T\"] = temperature\n", "            if temperature is not None:\n                prms[\"T\"] = prms.get(\"T\", temperature)\n", 1)]},
+    {"name": "requested temperature written with update()", "kind": "twin", "edits": [
+        (_SD9, "            if temperature is not None:\n                prms[\"T\"] = temperature\n", "            if temperature is not None:\n                prms.update({\"T\": temperature})\n", 1)]},
+]
